@@ -168,3 +168,66 @@ def rw_iflet_ref_patterns(toks, counts):
         n += 1
     _count(counts, "R15", n)
     return toks
+
+
+def rw_map_ctor_ok(toks, counts):
+    """R11c: `X.map(Path::Ctor).ok()` -> `match X { Ok(v__) => Some(Path::Ctor(v__)), Err(_) => None }`
+    (X: the maximal postfix chain to the left; Result::map + Result::ok by their std definitions)."""
+    n = 0
+    while True:
+        si = sig_idx(toks)
+        hit = None
+        for a in range(len(si) - 8):
+            i = si[a]
+            if toks[i].text == "." and toks[si[a + 1]].text == "map" and toks[si[a + 2]].text == "(":
+                mo = si[a + 2]
+                mc = match_close(toks, mo)
+                inner = [t for t in toks[mo + 1:mc] if is_sig(t)]
+                if not inner or not inner[-1].text[:1].isupper() or any(t.kind not in ("id", "p") for t in inner):
+                    continue
+                b = next_sig(toks, mc + 1)
+                c = next_sig(toks, b + 1)
+                if toks[b].text != "." or toks[c].text != "ok":
+                    continue
+                o = next_sig(toks, c + 1)
+                if toks[o].text != "(":
+                    continue
+                oc = match_close(toks, o)
+                r = prev_sig(toks, i - 1)
+                start = None
+                while r >= 0:
+                    t = toks[r]
+                    if t.kind == "p" and t.text in ")]":
+                        d = 0
+                        k = r
+                        while True:
+                            if toks[k].kind == "p" and toks[k].text in ")]":
+                                d += 1
+                            elif toks[k].kind == "p" and toks[k].text in "([":
+                                d -= 1
+                                if d == 0:
+                                    break
+                            k -= 1
+                        start = k
+                        r = prev_sig(toks, k - 1)
+                        continue
+                    if t.kind == "id" or (t.kind == "p" and t.text in ":.") or t.kind == "num":
+                        if t.kind == "id" and t.text in ("return", "match", "if", "in", "let", "else"):
+                            break
+                        start = r
+                        r = prev_sig(toks, r - 1)
+                        continue
+                    break
+                if start is None:
+                    continue
+                hit = (start, i, inner, oc)
+                break
+        if not hit:
+            break
+        start, r_end, inner, oc = hit
+        X = toks[start:r_end]
+        new = lex("match ") + X + lex(" { Ok(v__) => Some(") + inner + lex("(v__)), Err(_) => None }")
+        toks = relex(text(toks[:start] + new + toks[oc + 1:]))
+        n += 1
+    _count(counts, "R11", n)
+    return toks
